@@ -13,6 +13,7 @@ import (
 	"io"
 	"math/big"
 	"net"
+	"os"
 	"sort"
 	"strconv"
 	"sync"
@@ -336,11 +337,28 @@ func (c *fconn) Write(p []byte) (int, error) {
 			c.n.partialWrites.Add(1)
 		}
 	}
-	return c.Conn.Write(p)
+	k, err := c.Conn.Write(p)
+	return k, asNetError(err)
+}
+
+// asNetError gives deadline errors of the in-memory pipe the shape real
+// sockets give them (*net.OpError around os.ErrDeadlineExceeded, a net.Error).
+func asNetError(err error) error {
+	if err == nil {
+		return nil
+	}
+	if _, ok := err.(net.Error); ok {
+		return err
+	}
+	if t, ok := err.(interface{ Timeout() bool }); ok && t.Timeout() {
+		return &net.OpError{Op: "read", Net: "c18", Err: os.ErrDeadlineExceeded}
+	}
+	return err
 }
 
 func (c *fconn) Read(p []byte) (int, error) {
 	k, err := c.Conn.Read(p)
+	err = asNetError(err)
 	if k > 0 && c.n.withServer && !c.n.tls {
 		if c.pending.Add(-int64(k)) == 0 {
 			c.owner.Store(0)
